@@ -30,6 +30,7 @@ import ClipperVerif.Driver.TrimHorz
 import ClipperVerif.Driver.AelOpenRings
 import ClipperVerif.Driver.HorzJoins
 import ClipperVerif.Driver.C08Tidy
+import ClipperVerif.Driver.SweepEvents
 import ClipperVerif.Driver.JoinCond
 namespace Clipper.Driver
 open Clipper.Proto
@@ -67,7 +68,8 @@ def handlers : List (String → Option (P String)) := [
   AelOpenRings.handle,
   HorzJoins.handle,
   C08Tidy.handle,
-  JoinCond.handle
+  JoinCond.handle,
+  SweepEvents.handle
 ]
 
 def dispatch1 (cmd : String) : Option (P String) :=
